@@ -291,7 +291,7 @@ def obligations(pid, tier):
     pair = []
     for rmax, labels, ids in ([(1, "two", 2), (2, "one", 2), (2, "two", 2)] if quick
                               else [(1, "two", 2), (2, "two", 3), (3, "one", 3)]):
-        for ngt in ((0, 1, 3) if rmax < 3 else (2,)):  # three results per frame: one ground-truth count (run time)
+        for ngt in ((0, 1, 3) if rmax < 3 else (0, 2)):  # three results per frame: one ground-truth count (run time)
             base = dict(rmax=rmax, ngt=ngt, est_labels=labels, ids=ids)
             if rmax >= 2:
                 for a in (0, 1):
